@@ -322,7 +322,7 @@ impl Model for {name} {{
 
     def enum(self, behaviour, variants, name=None):
         """behaviour: union | transparent; variants: list of T."""
-        name = name or self.fresh("U" if behaviour == "union" else "TE")
+        name = name or self.fresh("Un" if behaviour == "union" else "TE")
         decl = "\n".join("    V%d(%s)," % (i, t.rust) for i, t in enumerate(variants))
         head = "union" if behaviour == "union" else "trans"
         tys = ", ".join("<%s as Model>::ty()" % t.rust for t in variants)
@@ -377,9 +377,12 @@ impl Model for {name} {{
         return self.add(T(name, False, sym=all(t.sym for t in variants), default=False,
                           depth=1 + max(t.depth for t in variants)))
 
-    def tag_enum(self, n, name=None):
+    def tag_enum(self, n, name=None, discr=None):
+        """discr: optional explicit Rust discriminants per variant (None = implicit).  The SSZ
+        selector is the zero-based declaration index whatever the discriminants are."""
         name = name or self.fresh("Tag")
-        decl = "\n".join("    V%d," % i for i in range(n))
+        discr = discr or [None] * n
+        decl = "\n".join(("    V%d," % i) if discr[i] is None else ("    V%d = %d," % (i, discr[i])) for i in range(n))
         arms = "\n".join("            %s::V%d => %d," % (name, i, i) for i in range(n))
         garms = "\n".join("            %d => %s::V%d," % (i, name, i) for i in range(n))
         self.items.append("""
@@ -510,12 +513,16 @@ def build_fixed(g):
         A(vec(tg)); A(option(tg)); A(tup([tg, u8]))
         pool = [u8, vec(u8), u16, by["Bytes"], option(u8), fl, vl]
         g.enum("union", [pool[i % len(pool)] for i in range(n)])
+    # explicit Rust discriminants do not move the SSZ selector
+    for n, d in [(3, [1, None, None]), (3, [16, 1, 8]), (2, [100, 3]), (4, [None, 5, None, 2])]:
+        tg = g.tag_enum(n, discr=d)
+        A(vec(tg)); A(tup([tg, vec(u8)]))
     ut = [t for t in g.catalogue if t.rust.startswith("Tag")][1]
     g.enum("union", [ut, vec(ut)])
     g.transparent_struct(ut, 0, 0, True)
     g.container([(ut, set()), (u8, set())])
     g.enum("union", [u8, u8]); g.enum("union", [vec(u8), vec(u16)])
-    un = [t for t in g.catalogue if t.rust.startswith("U") and t.rust[1:].isdigit()]
+    un = [t for t in g.catalogue if t.rust.startswith("Un") and t.rust[2:].isdigit()]
     A(vec(un[1])); A(option(un[2])); A(tup([un[1], un[2]]))
     g.enum("transparent", [vec(u8), vec(u16)]); g.enum("transparent", [vec(u16), vec(u8)])
     g.enum("transparent", [vl, by["Bytes"]]); g.enum("transparent", [option(u8), vec(u32), by["Bytes"]])
@@ -543,6 +550,45 @@ impl<A: Encode + Decode + Model, B: Encode + Decode + Model> Model for Gen2<A, B
     g.derived.add("Gen2")
     for a, b in [(u8, u16), (vec(u8), u8), (u64, vec(u16)), (fl, vl)]:
         A(T("Gen2<%s, %s>" % (a.rust, b.rust), False, sym=True, default=False, depth=2))
+    # a generic container whose size class depends on its parameter, instantiated several times in
+    # one process (every instantiation of one generic definition lands in the same shard): anything
+    # shared between monomorphisations (a `static`, a cache) shows as a wrong answer for one of them
+    g.items.append("""
+#[derive(Debug, Clone, PartialEq, Encode, Decode)]
+pub struct Gen1<T: Encode + Decode> {
+    pub a: T,
+    pub b: T,
+}
+impl<T: Encode + Decode + Model> Model for Gen1<T> {
+    fn ty() -> String { format!("(cont 1 {} {})", T::ty(), T::ty()) }
+    fn dec_ty() -> String { format!("(cont 1 {} {})", T::dec_ty(), T::dec_ty()) }
+    fn to_model(&self) -> String { format!("(c {} {})", self.a.to_model(), self.b.to_model()) }
+    fn to_model_dec(&self) -> String { format!("(c {} {})", self.a.to_model_dec(), self.b.to_model_dec()) }
+    fn gen(r: &mut Rng, size: usize) -> Self { Gen1 { a: T::gen(r, size / 2), b: T::gen(r, size / 2) } }
+    fn symmetric() -> bool { T::symmetric() }
+    fn max_slot() -> usize { std::cmp::max(std::mem::size_of::<Self>(), T::max_slot()) }
+}
+#[derive(Debug, Clone, PartialEq, Encode, Decode)]
+pub struct Outer1<T: Encode + Decode> {
+    pub head: Gen1<T>,
+    pub tail: Vec<u8>,
+}
+impl<T: Encode + Decode + Model> Model for Outer1<T> {
+    fn ty() -> String { format!("(cont 1 {} (list (uint 1)))", <Gen1<T>>::ty()) }
+    fn dec_ty() -> String { format!("(cont 1 {} (list (uint 1)))", <Gen1<T>>::dec_ty()) }
+    fn to_model(&self) -> String { format!("(c {} {})", self.head.to_model(), self.tail.to_model()) }
+    fn to_model_dec(&self) -> String { format!("(c {} {})", self.head.to_model_dec(), self.tail.to_model_dec()) }
+    fn gen(r: &mut Rng, size: usize) -> Self { Outer1 { head: <Gen1<T>>::gen(r, size), tail: <Vec<u8>>::gen(r, size / 2) } }
+    fn symmetric() -> bool { T::symmetric() }
+    fn max_slot() -> usize { std::cmp::max(std::mem::size_of::<Self>(), <Gen1<T>>::max_slot()) }
+}
+""")
+    g.derived.add("Gen1"); g.derived.add("Outer1")
+    for a in [u8, u64, u16, by["[u8; 4]"], vec(u8), by["bool"], vec(vec(u16))]:
+        g1 = A(T("Gen1<%s>" % a.rust, a.fixed, sym=True, default=False, depth=a.depth + 1))
+        if a.rust in ("u64", "u8", "Vec<u8>"):
+            A(vec(g1)); A(option(g1))
+            A(T("Outer1<%s>" % a.rust, False, sym=True, default=False, depth=a.depth + 2))
 
 
 def random_programs(g, rnd, count):
@@ -611,6 +657,9 @@ def tags_of(t, g):
         tags.add("bitfield")
     if t.fixed:
         tags.add("fixed")
+    for gname in ("Gen1", "Gen2", "Outer1"):
+        if gname + "<" in r:
+            tags.add("group:Gen")       # all instantiations of the generic definitions: one shard
     return tags
 
 
